@@ -43,9 +43,13 @@ func (c10) Gen(r *rand.Rand, tier string, run int) *core.Case {
 	c.Params["transport"] = []int{0, 0, 1, 2, 3, 4, 5}[r.IntN(7)]
 	c.Params["concurrent_install"] = r.IntN(2)
 	c.Params["fillers"] = []int{0, 0, 0, 9, 10, 11}[r.IntN(6)]
+	// ... and that go away while the traffic flows and other handlers come
+	if c.Params["fillers"] > 0 && r.IntN(2) == 0 {
+		c.Params["fillers_async"] = 1
+	}
 	// handlers that come and go while the traffic flows
 	c.Params["oneshots"] = []int{0, 0, 1, 2, 3}[r.IntN(5)]
-	c.Params["late"] = []int{0, 0, 1, 2}[r.IntN(4)]
+	c.Params["late"] = []int{0, 0, 1, 2, 3}[r.IntN(5)]
 	c.Params["late_delay"] = r.IntN(40)
 	if r.IntN(3) == 0 {
 		c.Params["early"] = 1 + r.IntN(4)
@@ -108,6 +112,8 @@ type c10handler struct {
 	oneshot bool
 	// late: registered while the traffic flows, by a goroutine of its own
 	late bool
+	// regSeq: (late) the registration had returned by this moment
+	regSeq int64
 }
 
 func (h *c10handler) match(typ uint8, service, id uint32) bool {
@@ -240,6 +246,7 @@ func (c10) Run(c *core.Case, env *core.Env) {
 		st.handlers = append(st.handlers[:pos:pos], append([]*c10handler{h}, st.handlers[pos:]...)...)
 	}
 	var rx net.EndPoint
+	var fillerIDs []int
 	install := func(e net.EndPoint) {
 		rx = e
 		// the handlers are registered one after the other, or all at once
@@ -249,15 +256,25 @@ func (c10) Run(c *core.Case, env *core.Env) {
 		// the table that was grown, above a run of free slots
 		var fillers []int
 		for k := 0; k < c.P("fillers", 0); k++ {
-			fillers = append(fillers, e.MakeHandler(func(*net.Header) (bool, bool) { return false, true }, make(chan *net.Message, 1), nil))
-		}
-		defer func() {
-			for _, id := range fillers {
-				if err := e.RemoveHandler(id); err != nil {
-					env.Violate("filler-removal", "removing a registered handler failed: %v", err)
+			// (their close callback takes a moment, as an application's may)
+			pause := k % 4
+			fillers = append(fillers, e.MakeHandler(func(*net.Header) (bool, bool) { return false, true }, make(chan *net.Message, 1), func(error) {
+				for j := 0; j < pause; j++ {
+					zzsim.Yield("h.filler-closer")
 				}
-			}
-		}()
+			}))
+		}
+		if c.P("fillers_async", 0) == 1 {
+			fillerIDs = fillers
+		} else {
+			defer func() {
+				for _, id := range fillers {
+					if err := e.RemoveHandler(id); err != nil {
+						env.Violate("filler-removal", "removing a registered handler failed: %v", err)
+					}
+				}
+			}()
+		}
 		var iwg sync.WaitGroup
 		ids := make([]int, len(st.handlers))
 		for k, h := range st.handlers {
@@ -409,8 +426,28 @@ func (c10) Run(c *core.Case, env *core.Env) {
 				zzsim.Yield("h.late-handler")
 			}
 			rx.MakeHandler(func(hdr *net.Header) (bool, bool) { return true, true }, h.queue, nil)
+			seq := zzsim.Seq()
+			st.mu.Lock()
+			h.regSeq = seq
+			st.mu.Unlock()
 			env.Probe("handlers-registered-during-the-traffic")
 		}(k)
+	}
+	if len(fillerIDs) > 0 && rx != nil {
+		wg.Add(1)
+		go func() {
+			defer wg.Done()
+			zzsim.SetNode("receiver")
+			for _, id := range fillerIDs {
+				for j := 0; j < c.P("late_delay", 0)%7; j++ {
+					zzsim.Yield("h.filler-removal")
+				}
+				if err := rx.RemoveHandler(id); err != nil {
+					env.Violate("filler-removal", "removing a registered handler failed: %v", err)
+				}
+			}
+			env.Probe("handlers-removed-during-the-traffic")
+		}()
 	}
 	if n := c.P("doomed", 0); n > 0 {
 		zzsim.SetNode("sender")
@@ -545,6 +582,14 @@ func (c10) Check(c *core.Case, env *core.Env, res zzsim.Result, v *core.Verdict)
 		}
 		frames = whole
 	}
+	// when each message was handed to Send
+	sendCall := map[uint32]int64{}
+	for _, h := range hs {
+		var id uint32
+		if _, err := fmt.Sscanf(h.Arg, "id=%v", &id); err == nil {
+			sendCall[id] = h.Call
+		}
+	}
 	// 2. every handler got exactly the filtered arrival sequence
 	if v.Stats.Steps > 0 && res.Quiescent {
 		for hi, h := range st.handlers {
@@ -593,9 +638,18 @@ func (c10) Check(c *core.Case, env *core.Env, res zzsim.Result, v *core.Verdict)
 				env.Probe("one-shot-handlers")
 			}
 			if h.late {
-				// everything that arrived from some moment on
+				// everything that arrived from some moment on, and that
+				// moment no later than the registration: what was sent after
+				// the registration had returned is owed
+				owedFrom := len(exp)
+				for k, id := range exp {
+					if c, known := sendCall[id]; known && h.regSeq != 0 && c > h.regSeq {
+						owedFrom = k
+						break
+					}
+				}
 				ok := false
-				for k := 0; k <= len(exp); k++ {
+				for k := 0; k <= owedFrom; k++ {
 					if fmt.Sprint(got) == fmt.Sprint(exp[k:]) {
 						ok = true
 						break
